@@ -467,6 +467,10 @@ func (packet *PacketHandler) readData(readLength bool) error {
 			return err
 		}
 	}
+	if packet.dataLength < 0 {
+		// declared packet length is smaller than the length field itself
+		return ErrPacketTruncated
+	}
 	packet.descriptionBuf.Grow(packet.dataLength)
 	packet.logger.Debugln("Read data")
 	nn, err := io.CopyN(packet.descriptionBuf, packet.reader, int64(packet.dataLength))
